@@ -74,7 +74,9 @@ class Mcg(Gate):
             else:
                 if self.up_to_diagonal:
                     su_2, _ = u2_to_su2(self.unitary)
-                    self.mcg(su_2, self.controls, self.target, self.ctrl_state)
+                    Mcg.mcg(
+                        self.definition, su_2, self.controls[:], self.target[0], self.ctrl_state
+                    )
                 else:
                     Ldmcu.ldmcu(self.definition, self.unitary, self.controls[:], self.target[0], self.ctrl_state)
 
